@@ -111,6 +111,15 @@ else:
         pass
 
 
+def _is_same_file(fp, path):
+    try:
+        stat_fp = os.fstat(fp.fileno())
+        stat_path = os.stat(path)
+    except OSError:
+        return False
+    return (stat_fp.st_ino, stat_fp.st_dev) == (stat_path.st_ino, stat_path.st_dev)
+
+
 class LockFile:
 
     _fp = None
@@ -129,6 +138,11 @@ class LockFile:
 
         try:
             _lock_file(fp)
+            # The lock file might have been removed (and re-created) by
+            # another process between our open and lock calls. In this case we
+            # hold a lock on an orphaned file that no one else will ever see.
+            if not _is_same_file(fp, path):
+                raise LockError("Lock file %r was replaced" % path)
         except Exception as ex:
             try:
                 fp.close()
